@@ -110,6 +110,7 @@ pub fn gen_config(prop: &str, tier: Tier, rng: &mut Rng) -> Config {
         w_step: *rng.pick(&[2, 4, 8]),
         bitset_only: false,
         max_kills: 2,
+        system_exit: false,
     };
     let lst = |rng: &mut Rng, uds_w: u64| -> Vec<Lst> {
         let n = if rng.chance(1, 3) { 2 } else { 1 };
@@ -165,6 +166,7 @@ pub fn gen_config(prop: &str, tier: Tier, rng: &mut Rng) -> Config {
             c.stop = true;
             c.advance = true;
             c.signals = rng.chance(1, 3);
+            c.system_exit = rng.chance(1, 4);
             c.pause = rng.chance(1, 4);
             c.max_conns = rng.range(1, 7) as usize;
             c.max_actions = rng.range(10, 70) as usize;
@@ -605,7 +607,9 @@ pub fn at_quiescence(sim: &mut Sim) {
     }
     if prop == "C06" && sim.o.eff_graceful == Some(false) && !sim.o.advanced_since_stop && sim.server_result.is_none() {
         // forced: completes without waiting for connections (no clock advance needed)
-        for (i, f) in sim.stop_futs.iter().enumerate() {
+        // the effective (first) stop is acknowledged at once; later stop futures resolve when the
+        // server ends, which with system_exit is 300 ms later (judged by the end-of-run rule)
+        for (i, f) in sim.stop_futs.iter().enumerate().take(1) {
             if !f.dropped && f.resolved_ms.is_none() {
                 sh.violate(Violation::new(
                     "forced-waited",
